@@ -89,7 +89,7 @@ func (ex *Exec) lookupOp(in *ssa.Lookup, fr *frame) Value {
 	x := fr.get(in.X)
 	k := fr.get(in.Index)
 	switch m := x.(type) {
-	case string, *smt.Term:
+	case string, *SymStr:
 		return ex.stringIndex(x, k, fr)
 	case *Map:
 		et := in.X.Type().Underlying().(*types.Map).Elem()
@@ -160,7 +160,7 @@ func (ex *Exec) rangeOp(x Value, in *ssa.Range, fr *frame) Value {
 		return it
 	case string:
 		return &Iter{Str: v}
-	case *smt.Term:
+	case *SymStr:
 		panic(engineErr("range over symbolic string at %s", fr.pos()))
 	}
 	panic(engineErr("range over %T", x))
@@ -194,7 +194,7 @@ func (ex *Exec) nextOp(it *Iter, in *ssa.Next, fr *frame) Value {
 		return Tuple{false, zk, zv}
 	}
 	idx := 0
-	if len(cands) > 1 && !ex.mapOrderInsertion && !ex.orderIrrelevant(in) {
+	if len(cands) > 1 && !ex.mapOrderInsertion && !ex.orderIrrelevant(in) && !ex.orderLemma(fr) {
 		// pristine-entry symmetry: untouched entries of a lazily created map are interchangeable;
 		// keep only the first representative of that class among the candidates.
 		var reps []*MapEntry
@@ -248,4 +248,18 @@ func (ex *Exec) pristine(e *MapEntry) bool {
 		return false
 	}
 	return !e.Touched
+}
+
+// orderLemma: the enclosing function is on the list of functions whose result was shown (by the
+// OrderLemma harnesses, all orders explored there) not to depend on map iteration order; inside them
+// the insertion order is used.
+func (ex *Exec) orderLemma(fr *frame) bool {
+	if ex.cfg.OrderInsensitive == nil || ex.noOrderLemma {
+		return false
+	}
+	if ex.cfg.OrderInsensitive[fr.fn.String()] {
+		ex.note("order-lemma:" + fr.fn.String())
+		return true
+	}
+	return false
 }
